@@ -1422,6 +1422,13 @@ class SpaceManager(SharedSpaceOperations):
         if not self._can_add(cells.parent, name, CellsImpl):
             raise ValueError("cannot create cells '%s'" % name)
 
+        for subspace in self._get_subs(cells.parent):
+            if name in subspace.cells:
+                # The renamed derived cells would replace it
+                raise ValueError(
+                    "cells '%s' exists in sub space '%s'" % (
+                        name, subspace.get_fullname()))
+
         if cells.bases:
             raise ValueError("'%s' is a sub Cells of '%s'" % (
                 cells.get_repr(fullname=True, add_params=False),
